@@ -132,7 +132,23 @@ func checkC09(p *Prog, r *Report) {
 	r.rule("C09.L5", "every function that writes the encoder's next id into a header advances it by one modulo paws afterwards; the OOB sealer writes the reserved id and does not advance", 3)
 	r.rule("C09.L6", "in encode: one sealData per call; when the group is complete every path runs exactly one of {seal every parity shard, skipParity()}, the parity slice is shardCache[dataShards:], and the group counters are reset", 3)
 	r.rule("C09.L7", "every BlockCrypt.Encrypt / aeadCrypt.Seal in the output path is preceded on every path by fillRand on the nonce prefix of the same buffer, with no other encryption of that buffer in between", 4)
+	r.rule("C09.L9", "parity is computed over the zero-padded size-prefixed payloads: size prefix written before the copy into the group, tails cleared to maxSize, shards cut [payloadOffset:maxSize], maxSize per group (= C07.F2 encode side, C07.F6)", 6)
 	r.rule("C09.L8", "the entropy sources advance their state on every Read before producing output, inside their mutex", 2)
+	{
+		sub := newReport("C07", r.Tier)
+		sub.curCfg = r.curCfg
+		checkC07(p, sub)
+		for _, o := range sub.Obs {
+			if !(o.Rule == "C07.F6" || (o.Rule == "C07.F2" && strings.Contains(o.Func, "fecEncoder"))) {
+				continue
+			}
+			if o.Status == Discharged {
+				r.ok("C09.L9", o.Func, o.Pos, o.Construct, o.Detail)
+			} else {
+				r.bad("C09.L9", o.Func, o.Pos, o.Construct, o.Detail, o.Witness)
+			}
+		}
+	}
 
 	checkKCPHeaderLayout(p, r)
 	checkCommands(p, r)
@@ -627,6 +643,25 @@ func checkFECLayout(p *Prog, r *Report) {
 		}
 		buf := firstByteSliceParam(p, fi)
 		wt := p.writerTable(fi, buf)
+		if h, bind := p.unwrapDelegate(fi); h != nil && len(wt) == 0 {
+			// a one-line wrapper around a shared sealer: analyse the sealer with the wrapper's arguments
+			var hbuf *types.Var
+			for po, at := range bind {
+				if at.Op == "var" && at.Obj == buf {
+					hbuf, _ = po.(*types.Var)
+				}
+			}
+			if hbuf != nil {
+				wt = p.writerTable(h, hbuf)
+				for i := range wt {
+					for po, at := range bind {
+						if wt[i].Name == po.Name() && at.IsConst() {
+							wt[i].Name = fmt.Sprintf("0x%x", at.Int)
+						}
+					}
+				}
+			}
+		}
 		ok := len(wt) == 2 && wt[0].Off == 0 && wt[0].Width == 4 && wt[1].Off == 4 && wt[1].Width == 2 && wt[1].Name == fmt.Sprintf("0x%x", tv)
 		r.check(ok, "C09.L3", fi.Name, p.Pos(fi.Node), "FEC header writer "+name, fmt.Sprintf("seqid u32@0, type u16@4 = 0x%x", tv), "writes "+describeTable(wt)+fmt.Sprintf(", expected seqid u32@0 and type u16@4 = 0x%x", tv))
 	}
@@ -724,6 +759,9 @@ func checkIDAdvance(p *Prog, r *Report) {
 	fNext := p.Field("fecEncoder", "next")
 	for _, name := range []string{"sealData", "sealParity"} {
 		fi := p.FuncOf(p.Method("fecEncoder", name))
+		if h, _ := p.unwrapDelegate(fi); h != nil {
+			fi = h // a one-line wrapper around a shared sealer
+		}
 		c := p.CFG(fi)
 		// the write of next into the header precedes exactly one advance
 		var wr, adv []Point
@@ -1030,4 +1068,47 @@ func checkEntropyAdvance(p *Prog, r *Report) {
 		}
 		r.check(ok && adv, "C09.L8", fi.Name, p.Pos(fi.Node), "state advance and output inside the mutex", "Lock; advance; produce; Unlock", "the generator's output is produced outside its mutex or before the state advances: two callers can obtain the same nonce")
 	}
+}
+
+// unwrapDelegate: fi's body is a single call statement H(args...) (or recv.H(args...))
+// of a package function whose arguments are fi's own parameters/receiver or
+// constants. It returns H and the binding of H's parameters to the argument terms.
+func (p *Prog) unwrapDelegate(fi *FuncInfo) (*FuncInfo, map[types.Object]*Term) {
+	if fi == nil || fi.Body == nil || len(fi.Body.List) != 1 {
+		return nil, nil
+	}
+	es, ok := fi.Body.List[0].(*ast.ExprStmt)
+	if !ok {
+		return nil, nil
+	}
+	call, ok := es.X.(*ast.CallExpr)
+	if !ok {
+		return nil, nil
+	}
+	f := p.Callee(call)
+	if f == nil || f.Pkg() != p.Types {
+		return nil, nil
+	}
+	h := p.FuncOf(f)
+	if h == nil || h.Body == nil || h == fi {
+		return nil, nil
+	}
+	bind := map[types.Object]*Term{}
+	if rv := p.recvVar(h); rv != nil {
+		if sel, ok := ast.Unparen(call.Fun).(*ast.SelectorExpr); ok {
+			bind[rv] = p.Term(sel.X)
+		}
+	}
+	for i, a := range call.Args {
+		po := h.paramObj(p, i)
+		if po == nil {
+			return nil, nil
+		}
+		t := p.Term(a)
+		if !(t.IsConst() || t.Op == "var") {
+			return nil, nil
+		}
+		bind[po] = t
+	}
+	return h, bind
 }
